@@ -514,43 +514,33 @@ def build_class(accs, base='Module', feats=()):
 
 # ------------------------------------------------------------------ node
 
-class SecNodeStub:
-    """the two SecNode methods the dispatcher needs for describe, on top of a plain module table"""
+def make_secnode(log, srv):
+    """the REAL frappy.secnode.SecNode (whatever attributes and caches it has on the tree under test), filled by the
+    harness with ready-made module objects; only the lazy creation from a configuration is switched off"""
+    from frappy.secnode import SecNode
 
-    def __init__(self, log):
-        self.modules = {}
-        self.export = []
-        self.name = 'node'
-        self.equipment_id = 'verif_node'
-        # node properties: only the description and those with a leading underscore belong into the report
-        self.nodeprops = {'description': 'generated node', '_custom': 'c1', 'internal': 'x'}
-        self.log = log
+    class VSecNode(SecNode):
+        def get_module(self, modname):
+            if modname not in self.modules:
+                return None                     # (no configuration to create it from)
+            return super().get_module(modname)
 
-    def add_module(self, module, modname):
-        self.modules[modname] = module
-        if module.export:
-            self.export.append(modname)
-
-    def get_module(self, modname):
-        return self.modules.get(modname)
-
-    def export_accessibles(self, modulename):
-        from frappy.secnode import SecNode
-        return SecNode.export_accessibles(self, modulename)
-
-    def get_descriptive_data(self, specifier):
-        from frappy.secnode import SecNode
-        return SecNode.get_descriptive_data(self, specifier)
+    sn = VSecNode('node', log, {'equipment_id': 'verif_node'}, srv)
+    # node properties: only the description and those with a leading underscore belong into the report
+    for k, v in (('description', 'generated node'), ('_custom', 'c1'), ('internal', 'x')):
+        sn.add_secnode_property(k, v)
+    return sn
 
 
 class ServerStub:
     restart = shutdown = None
+    module_cfg = {}
 
     def __init__(self):
         boot()
         from frappy.protocol.dispatcher import Dispatcher
         self.log = LoggerStub('srv')
-        self.secnode = SecNodeStub(self.log)
+        self.secnode = make_secnode(self.log.getChild('secnode'), self)
         self.dispatcher = Dispatcher('disp', self.log.getChild('dispatcher'), {}, self)
 
 
